@@ -274,21 +274,35 @@ Definition pfx (ts : list tok) (len n : Z) (ll : nat) : str :=
 Lemma pfx_nil len n ll : pfx [] len n ll = repeat c_rbrace ll.
 Proof. reflexivity. Qed.
 
+Lemma brace_count_cdepth : forall t l, brace_count t l = cdepth_from l t.
+Proof.
+  induction t as [|c t IH]; intros l; [reflexivity|]. cbn [brace_count cdepth_from].
+  unfold is_lbrace, is_rbrace. destruct (N.eqb c c_lbrace); [apply IH|]. destruct (N.eqb c c_rbrace); apply IH.
+Qed.
+
+Lemma cdepth_from_app : forall a b d, cdepth_from d (a ++ b) = cdepth_from (cdepth_from d a) b.
+Proof.
+  induction a as [|c a IH]; intros b d; [reflexivity|]. cbn [app cdepth_from].
+  destruct (N.eqb c c_lbrace); [apply IH|]. destruct (N.eqb c c_rbrace); apply IH.
+Qed.
+
 Lemma pfx_cons t l rest len n ll :
   pfx ((t, l) :: rest) len n ll =
+  let lvl := cdepth_from ll t in
   let len' := if tok_is_brace t then len else (len + 1)%Z in
-  if (n <=? len')%Z then t ++ repeat c_rbrace l else t ++ pfx rest len' n l.
+  if (n <=? len')%Z then t ++ repeat c_rbrace lvl else t ++ pfx rest len' n lvl.
 Proof.
-  unfold pfx. cbn [prefix_go]. cbv zeta.
+  unfold pfx. cbn [prefix_go]. cbv zeta. rewrite brace_count_cdepth.
   destruct (n <=? (if tok_is_brace t then len else (len + 1)))%Z; cbn [fst snd]; [reflexivity|].
   rewrite <- app_assoc. reflexivity.
 Qed.
 
 (* the output of bibtex_prefix computed directly on the string: the characters consumed,
-   then one closing brace per level of the scanner at the cut *)
+   then one closing brace per brace still open at the cut (inside a never-closed special
+   character: its own brace and the [d] braces open inside it) *)
 Fixpoint F (s : str) (level : nat) (sp : option nat) (len n : Z) : str :=
   match s with
-  | [] => match sp with None => repeat c_rbrace level | Some _ => [c_rbrace] end
+  | [] => match sp with None => repeat c_rbrace level | Some d => repeat c_rbrace (S d) end
   | c :: t =>
     match sp with
     | Some d =>
@@ -322,41 +336,54 @@ Proof.
         destruct (is_brace c); reflexivity.
 Qed.
 
-Lemma prefix_fused : forall s level sp ts len n ll, (len < n)%Z ->
+Lemma cdepth_one_nonrb c level : is_lbrace c = false -> (is_rbrace c && Nat.ltb 0 level) = false ->
+  cdepth_from level [c] = level.
+Proof.
+  unfold is_lbrace, is_rbrace. intros El Er. cbn [cdepth_from]. rewrite El.
+  destruct (N.eqb c c_rbrace); [|reflexivity]. destruct level; [reflexivity|discriminate].
+Qed.
+
+Lemma prefix_fused : forall s level sp ts len n, (len < n)%Z ->
   scan_go s level sp = Ok ts ->
   match sp with
   | None => pfx ts len n level = F s level None len n
-  | Some (d, acc) => bs_head (rev acc ++ s) = true ->
-                     pfx ts len n ll = rev acc ++ F s level (Some d) len n
+  | Some (d, acc) => bs_head (rev acc ++ s) = true -> cdepth_from 1 (rev acc) = S d ->
+                     pfx ts len n 1 = rev acc ++ F s level (Some d) len n
   end.
 Proof.
-  induction s as [|c t IH]; intros level sp ts len n ll Hlt H.
+  induction s as [|c t IH]; intros level sp ts len n Hlt H.
   - destruct sp as [[d acc]|]; cbn [scan_go] in H; inv_ok.
-    + rewrite app_nil_r. intros Hb. rewrite pfx_cons, (bs_head_not_brace _ Hb). cbv zeta.
+    + rewrite app_nil_r. intros Hb Hc. rewrite pfx_cons, (bs_head_not_brace _ Hb), Hc. cbv zeta. cbn [F].
       destruct (n <=? len + 1)%Z eqn:E; [reflexivity|].
       rewrite pfx_cons. cbn [tok_is_brace]. change (is_brace c_rbrace) with true. cbv iota zeta.
       rewrite E. rewrite pfx_nil. reflexivity.
     + reflexivity.
   - destruct sp as [[d acc]|]; cbn [scan_go] in H; cbn [F].
-    + intros Hb.
+    + intros Hb Hc.
+      assert (Hsnoc : forall k, cdepth_from (S d) [c] = k -> cdepth_from 1 (rev (c :: acc)) = k).
+      { intros k Hk. cbn [rev]. rewrite cdepth_from_app, Hc. exact Hk. }
       destruct (is_lbrace c) eqn:El.
       * destruct (Nat.ltb max_level (2 + d)); [discriminate|].
-        apply (IH _ _ _ _ _ ll Hlt) in H. cbn beta iota in H. rewrite H.
+        apply (IH _ _ _ _ _ Hlt) in H. cbn beta iota in H. rewrite H.
         -- cbn [rev]. rewrite <- app_assoc. reflexivity.
         -- rewrite bs_head_snoc. exact Hb.
+        -- apply Hsnoc. cbn [cdepth_from]. unfold is_lbrace in El. rewrite El. reflexivity.
       * destruct (is_rbrace c) eqn:Er.
         -- apply rb_eq in Er; subst c. destruct d as [|d'].
-           ++ inv_ok. rewrite pfx_cons, (bs_head_not_brace _ (bs_head_app_rb _ _ Hb)). cbv zeta.
+           ++ inv_ok. rewrite pfx_cons, (bs_head_not_brace _ (bs_head_app_rb _ _ Hb)), Hc. cbv zeta.
               destruct (n <=? len + 1)%Z eqn:E; [reflexivity|].
               rewrite pfx_cons. cbn [tok_is_brace]. change (is_brace c_rbrace) with true. cbv iota zeta.
               rewrite E. apply Z.leb_gt in E.
-              apply (IH _ _ _ _ _ ll E) in Hr. cbn beta iota in Hr. rewrite Hr. reflexivity.
-           ++ apply (IH _ _ _ _ _ ll Hlt) in H. cbn beta iota in H. rewrite H.
+              apply (IH _ _ _ _ _ E) in Hr. cbn beta iota in Hr.
+              change (cdepth_from 1 [c_rbrace]) with 0. rewrite Hr. reflexivity.
+           ++ apply (IH _ _ _ _ _ Hlt) in H. cbn beta iota in H. rewrite H.
               ** cbn [rev]. rewrite <- app_assoc. reflexivity.
               ** rewrite bs_head_snoc. exact Hb.
-        -- apply (IH _ _ _ _ _ ll Hlt) in H. cbn beta iota in H. rewrite H.
+              ** apply Hsnoc. reflexivity.
+        -- apply (IH _ _ _ _ _ Hlt) in H. cbn beta iota in H. rewrite H.
            ++ cbn [rev]. rewrite <- app_assoc. reflexivity.
            ++ rewrite bs_head_snoc. exact Hb.
+           ++ apply Hsnoc. cbn [cdepth_from]. unfold is_lbrace, is_rbrace in El, Er. rewrite El, Er. reflexivity.
     + fold (bs_head t) in H.
       assert (Hn : (n <=? len)%Z = false) by (apply Z.leb_gt; exact Hlt).
       destruct (is_lbrace c) eqn:El.
@@ -364,20 +391,34 @@ Proof.
         destruct (Nat.eqb level 0 && bs_head t) eqn:Esp.
         -- inv_ok. apply andb_prop in Esp as [E0 Eb]. apply Nat.eqb_eq in E0; subst level.
            rewrite pfx_cons. cbn [tok_is_brace]. change (is_brace c_lbrace) with true. cbv iota zeta.
-           rewrite Hn. apply (IH _ _ _ _ _ 1 Hlt) in Hr. cbn beta iota in Hr. cbn [rev app] in Hr.
-           rewrite (Hr Eb). reflexivity.
+           rewrite Hn. apply (IH _ _ _ _ _ Hlt) in Hr. cbn beta iota in Hr. cbn [rev app] in Hr.
+           change (cdepth_from 0 [c_lbrace]) with 1. rewrite (Hr Eb eq_refl). reflexivity.
         -- destruct (Nat.ltb max_level (S level)); [discriminate|]. inv_ok.
            rewrite pfx_cons. cbn [tok_is_brace]. change (is_brace c_lbrace) with true. cbv iota zeta.
-           rewrite Hn. apply (IH _ _ _ _ _ ll Hlt) in Hr. cbn beta iota in Hr. rewrite Hr. reflexivity.
+           rewrite Hn. apply (IH _ _ _ _ _ Hlt) in Hr. cbn beta iota in Hr.
+           change (cdepth_from level [c_lbrace]) with (S level). rewrite Hr. reflexivity.
       * destruct (is_rbrace c && Nat.ltb 0 level) eqn:Erl.
         -- inv_ok. apply andb_prop in Erl as [Er _]. apply rb_eq in Er; subst c.
            rewrite pfx_cons. cbn [tok_is_brace]. change (is_brace c_rbrace) with true. cbv iota zeta.
-           rewrite Hn. apply (IH _ _ _ _ _ ll Hlt) in Hr. cbn beta iota in Hr. rewrite Hr. reflexivity.
-        -- inv_ok. rewrite pfx_cons. cbn [tok_is_brace]. cbv zeta.
+           rewrite Hn. apply (IH _ _ _ _ _ Hlt) in Hr. cbn beta iota in Hr.
+           change (cdepth_from level [c_rbrace]) with (pred level). rewrite Hr. reflexivity.
+        -- inv_ok. rewrite pfx_cons, (cdepth_one_nonrb c level El Erl). cbn [tok_is_brace]. cbv zeta.
            destruct (is_brace c) eqn:Eb.
-           ++ rewrite Hn. apply (IH _ _ _ _ _ ll Hlt) in Hr. cbn beta iota in Hr. rewrite Hr. reflexivity.
+           ++ rewrite Hn. apply (IH _ _ _ _ _ Hlt) in Hr. cbn beta iota in Hr. rewrite Hr. reflexivity.
            ++ destruct (n <=? len + 1)%Z eqn:E; [reflexivity|]. apply Z.leb_gt in E.
-              apply (IH _ _ _ _ _ ll E) in Hr. cbn beta iota in Hr. rewrite Hr. reflexivity.
+              apply (IH _ _ _ _ _ E) in Hr. cbn beta iota in Hr. rewrite Hr. reflexivity.
+Qed.
+
+Lemma scan_closers_special : forall d acc level,
+  scan_go (repeat c_rbrace (S d)) level (Some (d, acc)) =
+  Ok [(rev acc ++ repeat c_rbrace d, 1); ([c_rbrace], 0)].
+Proof.
+  induction d as [|d IH]; intros acc level.
+  - cbn [repeat scan_go]. change (is_lbrace c_rbrace) with false. change (is_rbrace c_rbrace) with true.
+    cbv iota. cbn [scan_go bind]. rewrite app_nil_r. reflexivity.
+  - change (repeat c_rbrace (S (S d))) with (c_rbrace :: repeat c_rbrace (S d)). cbn [scan_go].
+    change (is_lbrace c_rbrace) with false. change (is_rbrace c_rbrace) with true. cbv iota.
+    rewrite IH. cbn [rev repeat]. rewrite <- app_assoc. reflexivity.
 Qed.
 
 Lemma scan_closers level :
@@ -405,12 +446,9 @@ Proof.
     + rewrite app_nil_r in Hok.
       assert (Hc : cnt [(rev acc, 1); ([c_rbrace], 0)] = 1).
       { rewrite !cnt_cons, (bs_head_not_brace _ Hok). reflexivity. }
-      rewrite Hc. cbn [scan_go]. change (is_lbrace c_rbrace) with false. change (is_rbrace c_rbrace) with true.
-      cbv iota. destruct d as [|d'].
-      * cbn [scan_go bind]. exists [(rev acc, 1); ([c_rbrace], 0)]; split; [reflexivity|]. rewrite Hc. cbv iota; lia.
-      * cbn [scan_go]. eexists; split; [reflexivity|].
-        rewrite !cnt_cons. cbn [rev]. rewrite (bs_head_not_brace _ (bs_head_app _ [c_rbrace] Hok)).
-        cbn [tok_is_brace]. change (is_brace c_rbrace) with true. cbn. cbv iota; lia.
+      rewrite Hc, scan_closers_special. eexists; split; [reflexivity|].
+      rewrite !cnt_cons, (bs_head_not_brace _ (bs_head_app _ (repeat c_rbrace d) Hok)).
+      cbn [tok_is_brace]. change (is_brace c_rbrace) with true. cbn [cnt filter length]. cbv iota; lia.
     + destruct (scan_closers level) as (r & Hr & Hc). exists r. split; [exact Hr|].
       rewrite Hc. cbn. cbv iota; lia.
   - destruct sp as [[d acc]|]; cbn [scan_go] in H; cbn [option_map fst F sp_ok] in *.
@@ -492,7 +530,7 @@ Proof.
   destruct (0 <? n)%Z eqn:En.
   - apply Z.ltb_lt in En. apply bind_Ok in Hp. destruct Hp as (r2 & Hr2 & Hp).
     rewrite Hr in Hr2. injection Hr2 as Hr2. subst r2. injection Hp as Hp. subst p.
-    pose proof (prefix_fused s 0 None r 0 n 0 En Hr) as Hf. cbn beta iota in Hf.
+    pose proof (prefix_fused s 0 None r 0 n En Hr) as Hf. cbn beta iota in Hf.
     unfold pfx in Hf. cbv zeta in Hf. rewrite Hf.
     destruct (prefix_rescan s 0 None r 0 n En Hr I) as (r' & Hr' & Hc).
     cbn [option_map] in Hr'. fold (scan (F s 0 None 0 n)) in Hr'. rewrite Hr'. cbn [bind].
@@ -557,7 +595,7 @@ Lemma prefix_shape_lemma s n out :
 Proof.
   unfold bibtex_prefix. intros Hb H. destruct (0 <? n)%Z eqn:En.
   - apply Z.ltb_lt in En. inv_ok.
-    pose proof (prefix_fused s 0 None r 0 n 0 En Hr) as Hf. cbn beta iota in Hf.
+    pose proof (prefix_fused s 0 None r 0 n En Hr) as Hf. cbn beta iota in Hf.
     unfold pfx in Hf. cbv zeta in Hf. rewrite Hf.
     destruct (F_shape_bal s 0 None 0 n Hb) as (p & k & r' & H1 & H2 & H3).
     exists p, k. split; [exact H1|]. split; [exists r'; exact H2|exact H3].
@@ -570,11 +608,6 @@ Proof.
   unfold balanced. rewrite H1, depth_from_app, H3. apply depth_closers.
 Qed.
 
-Lemma prefix_closes_refuted_lemma :
-  exists s n out, bibtex_prefix s n = Ok out /\ cdepth_from 0 out <> 0.
-Proof.
-  exists (s2l "{\{"), 1%Z, (s2l "{\{}"). split; [vm_compute; reflexivity|vm_compute; discriminate].
-Qed.
 
 (* ------------------------------------------------------------------ purify *)
 Definition plainc (c : char) : bool := is_alnum c || N.eqb c c_space.
@@ -670,16 +703,16 @@ Proof.
   - eexists (firstn _ s), (skipn _ (skipn _ s)). rewrite firstn_skipn, firstn_skipn. reflexivity.
 Qed.
 
-(* for every string (balanced or not) the output is a prefix followed by closing braces,
-   never more of them than the prefix leaves open (clamped depth) *)
-Lemma F_shape_all : forall s level sp len n,
+(* for every string (balanced or not) the output is a prefix followed by exactly the closing
+   braces that prefix leaves open (clamped depth) *)
+Lemma F_shape_exact : forall s level sp len n,
   exists p k r, F s level sp len n = p ++ repeat c_rbrace k /\ s = p ++ r /\
-                k <= cdepth_from (match sp with None => level | Some d => S d end) p.
+                k = cdepth_from (match sp with None => level | Some d => S d end) p.
 Proof.
   induction s as [|c t IH]; intros level sp len n.
   - destruct sp as [d|]; cbn [F].
-    + exists [], 1, []. repeat split. cbn [cdepth_from]. lia.
-    + exists [], level, []. repeat split. cbn [cdepth_from]. lia.
+    + exists [], (S d), []. repeat split.
+    + exists [], level, []. repeat split.
   - destruct sp as [d|]; cbn [F]; unfold is_lbrace, is_rbrace.
     + destruct (N.eqb c c_lbrace) eqn:El.
       * destruct (IH level (Some (S d)) len n) as (p & k & r & H1 & H2 & H3).
@@ -687,7 +720,7 @@ Proof.
       * destruct (N.eqb c c_rbrace) eqn:Er.
         -- destruct d as [|d'].
            ++ destruct (n <=? len + 1)%Z.
-              ** apply N.eqb_eq in Er; subst c. exists [], 1, (c_rbrace :: t). repeat split. cbn [cdepth_from]. lia.
+              ** apply N.eqb_eq in Er; subst c. exists [], 1, (c_rbrace :: t). repeat split.
               ** destruct (IH 0 None (len + 1)%Z n) as (p & k & r & H1 & H2 & H3).
                  exists (c :: p), k, r. rewrite H1, H2. repeat split. cbn [cdepth_from pred].
                  rewrite El, Er. exact H3.
@@ -715,86 +748,41 @@ Proof.
               rewrite El, Er. exact H3.
         -- cbn [andb]. unfold is_brace, is_lbrace, is_rbrace. rewrite El, Er. cbn [orb].
            destruct (n <=? len + 1)%Z.
-           ++ exists [c], level, t. repeat split. cbn [cdepth_from]. rewrite El, Er. lia.
+           ++ exists [c], level, t. repeat split. cbn [cdepth_from]. rewrite El, Er. reflexivity.
            ++ destruct (IH level None (len + 1)%Z n) as (p & k & r & H1 & H2 & H3).
               exists (c :: p), k, r. rewrite H1, H2. repeat split. cbn [cdepth_from].
               rewrite El, Er. exact H3.
 Qed.
 
-Lemma F_shape_exact : forall s level sp len n,
-  ends_in_special_go s level sp = false ->
-  exists p k r, F s level sp len n = p ++ repeat c_rbrace k /\ s = p ++ r /\
-                k = cdepth_from (match sp with None => level | Some d => S d end) p.
-Proof.
-  induction s as [|c t IH]; intros level sp len n He.
-  - destruct sp as [d|]; cbn [ends_in_special_go] in He; [discriminate|].
-    exists [], level, []. repeat split.
-  - cbn [ends_in_special_go] in He. fold (bs_head t) in He.
-    destruct sp as [d|]; cbn [F]; unfold is_lbrace, is_rbrace.
-    + destruct (N.eqb c c_lbrace) eqn:El.
-      * destruct (IH level (Some (S d)) len n He) as (p & k & r & H1 & H2 & H3).
-        exists (c :: p), k, r. rewrite H1, H2. repeat split. cbn [cdepth_from]. rewrite El. exact H3.
-      * destruct (N.eqb c c_rbrace) eqn:Er.
-        -- destruct d as [|d'].
-           ++ destruct (n <=? len + 1)%Z.
-              ** apply N.eqb_eq in Er; subst c. exists [], 1, (c_rbrace :: t). repeat split.
-              ** destruct (IH 0 None (len + 1)%Z n He) as (p & k & r & H1 & H2 & H3).
-                 exists (c :: p), k, r. rewrite H1, H2. repeat split. cbn [cdepth_from pred].
-                 rewrite El, Er. exact H3.
-           ++ destruct (IH level (Some d') len n He) as (p & k & r & H1 & H2 & H3).
-              exists (c :: p), k, r. rewrite H1, H2. repeat split. cbn [cdepth_from pred].
-              rewrite El, Er. exact H3.
-        -- destruct (IH level (Some d) len n He) as (p & k & r & H1 & H2 & H3).
-           exists (c :: p), k, r. rewrite H1, H2. repeat split. cbn [cdepth_from].
-           rewrite El, Er. exact H3.
-    + destruct (N.eqb c c_lbrace) eqn:El.
-      * destruct (Nat.eqb level 0 && bs_head t) eqn:Esp.
-        -- apply andb_prop in Esp as [E0 _]. apply Nat.eqb_eq in E0; subst level.
-           destruct (IH 0 (Some 0) len n He) as (p & k & r & H1 & H2 & H3).
-           exists (c :: p), k, r. rewrite H1, H2. repeat split. cbn [cdepth_from]. rewrite El. exact H3.
-        -- destruct (IH (S level) None len n He) as (p & k & r & H1 & H2 & H3).
-           exists (c :: p), k, r. rewrite H1, H2. repeat split. cbn [cdepth_from]. rewrite El. exact H3.
-      * destruct (N.eqb c c_rbrace) eqn:Er.
-        -- destruct level as [|l']; cbn [andb Nat.ltb Nat.leb pred] in He |- *.
-           ++ unfold is_brace, is_lbrace, is_rbrace. rewrite El, Er. cbn [orb].
-              destruct (IH 0 None len n He) as (p & k & r & H1 & H2 & H3).
-              exists (c :: p), k, r. rewrite H1, H2. repeat split. cbn [cdepth_from pred].
-              rewrite El, Er. exact H3.
-           ++ destruct (IH l' None len n He) as (p & k & r & H1 & H2 & H3).
-              exists (c :: p), k, r. rewrite H1, H2. repeat split. cbn [cdepth_from pred].
-              rewrite El, Er. exact H3.
-        -- cbn [andb]. unfold is_brace, is_lbrace, is_rbrace. rewrite El, Er. cbn [orb].
-           destruct (n <=? len + 1)%Z.
-           ++ exists [c], level, t. repeat split. cbn [cdepth_from]. rewrite El, Er. reflexivity.
-           ++ destruct (IH level None (len + 1)%Z n He) as (p & k & r & H1 & H2 & H3).
-              exists (c :: p), k, r. rewrite H1, H2. repeat split. cbn [cdepth_from].
-              rewrite El, Er. exact H3.
-Qed.
-
 Lemma prefix_shape_exact_lemma s n out :
-  ends_in_special s = false -> bibtex_prefix s n = Ok out ->
+  bibtex_prefix s n = Ok out ->
   exists p k, out = p ++ repeat c_rbrace k /\ is_prefix p s /\ k = cdepth_from 0 p.
 Proof.
-  unfold bibtex_prefix. intros He H. destruct (0 <? n)%Z eqn:En.
+  unfold bibtex_prefix. intros H. destruct (0 <? n)%Z eqn:En.
   - apply Z.ltb_lt in En. inv_ok.
-    pose proof (prefix_fused s 0 None r 0 n 0 En Hr) as Hf. cbn beta iota in Hf.
+    pose proof (prefix_fused s 0 None r 0 n En Hr) as Hf. cbn beta iota in Hf.
     unfold pfx in Hf. cbv zeta in Hf. rewrite Hf.
-    destruct (F_shape_exact s 0 None 0 n He) as (p & k & r' & H1 & H2 & H3).
+    destruct (F_shape_exact s 0 None 0 n) as (p & k & r' & H1 & H2 & H3).
     exists p, k. split; [exact H1|]. split; [exists r'; exact H2|exact H3].
   - inv_ok. exists [], 0. repeat split. exists s. reflexivity.
+Qed.
+
+Lemma cdepth_closers k : cdepth_from k (repeat c_rbrace k) = 0.
+Proof. induction k; cbn [repeat cdepth_from]; [reflexivity|]. exact IHk. Qed.
+
+(* it closes the braces it opened: the output ends at (clamped) depth 0 -- every string *)
+Lemma prefix_closes_lemma s n out : bibtex_prefix s n = Ok out -> cdepth_from 0 out = 0.
+Proof.
+  intros H. destruct (prefix_shape_exact_lemma s n out H) as (p & k & H1 & _ & H3).
+  rewrite H1, cdepth_from_app, <- H3. apply cdepth_closers.
 Qed.
 
 Lemma prefix_is_prefix_lemma s n out :
   bibtex_prefix s n = Ok out ->
   exists p k, out = p ++ repeat c_rbrace k /\ is_prefix p s /\ k <= cdepth_from 0 p.
 Proof.
-  unfold bibtex_prefix. intros H. destruct (0 <? n)%Z eqn:En.
-  - apply Z.ltb_lt in En. inv_ok.
-    pose proof (prefix_fused s 0 None r 0 n 0 En Hr) as Hf. cbn beta iota in Hf.
-    unfold pfx in Hf. cbv zeta in Hf. rewrite Hf.
-    destruct (F_shape_all s 0 None 0 n) as (p & k & r' & H1 & H2 & H3).
-    exists p, k. split; [exact H1|]. split; [exists r'; exact H2|exact H3].
-  - inv_ok. exists [], 0. repeat split; [exists s; reflexivity|cbn; lia].
+  intros H. destruct (prefix_shape_exact_lemma s n out H) as (p & k & H1 & H2 & H3).
+  exists p, k. repeat split; auto. lia.
 Qed.
 
 (* ------------------------------------------------------------------ no foreign exception anywhere *)
